@@ -180,6 +180,18 @@ def accessSource (t : Tensor ν α) (names : List ν) : Option (Iter.TSource Nat
   | none => none
   | some m => some ((Iter.TSource.ofTensor t).access m)
 
+/-- `TensorIndex::from(source, [(name, i)])` on dimension `d` (what `select` builds): the shape
+    loses dimension `d`, an index of the view gets `i` spliced in at `d`.  `none`: the constructor
+    panics (`i` is not below the length of the dimension, or there is no such dimension). -/
+def indexSource (src : Iter.TSource Nat) (d i : Nat) : Option (Iter.TSource Nat) :=
+  match src.shape[d]? with
+  | none => none
+  | some len =>
+    if i < len then
+      some { shape := src.shape.eraseIdx d
+             cell := fun idx => src.cell (idx.take d ++ i :: idx.drop d) }
+    else none
+
 /-- which whole-matrix or line iterator -/
 inductive MOrder where
   | rowMajor
